@@ -1,4 +1,5 @@
 import SpVerif.Proofs.Prefix
+import SpVerif.Proofs.PrefixPdu
 /-!
 # C09 — decoders never read past the declared packet; trailing octets cannot leak in
 
@@ -360,5 +361,137 @@ example : (FileStoreRequestTlv.mk 0 [0x61, 0x2E, 0x74, 0x78, 0x74] []).packetLen
 example : FileStoreRequestTlv.unpack ([0, 10, 0, 5, 0x61, 0x2E, 0x74, 0x78, 0x74, 1, 2, 3].take 9) = .error .value := by
   decide
 
+
+/-! # Second half: complete CFDP PDUs followed by further octets
+
+Decoders: the models of C06 (ACK, Prompt, Keep Alive, NAK) and C07 (File Data). For every kind `K`
+and **every** accepted buffer `d` with result `r`: the declared PDU (`packet_len` octets) lies inside
+`d` and decoding exactly those octets gives `r` (`C09_pdu_declared`); the same PDU followed by any
+octets is decoded to `r` again or refused with a documented error (`C09_pdu_trailing`) — ACK, Prompt,
+Keep Alive and File Data always decode it (`C09_ack` …), NAK always refuses it with `ValueError`
+(`C09_nak_trailing`, by design of the library's own test-suite). `C09_K_no_fold`: the decoded PDU is
+the value of the parameter parser on the directive base and the declared PDU **minus its CRC
+trailer** — octets beyond the declared length and the trailer itself never reach the parameters,
+file data or segment requests. (EOF, Finished, Metadata: when their models arrive.) -/
+
+/-- ACK PDU (`AckPdu.unpack`, `packet_len`) -/
+theorem C09_ack (d : Bytes) (a : Ack.Ack) (hu : Ack.Ack.unpack d = .ok a) :
+    PrefixOnly Ack.Ack.unpack d a a.packetLen :=
+  prefixOnly_of (ack_local d a hu)
+
+/-- Prompt PDU -/
+theorem C09_prompt (d : Bytes) (a : Prompt.Prompt) (hu : Prompt.Prompt.unpack d = .ok a) :
+    PrefixOnly Prompt.Prompt.unpack d a a.packetLen :=
+  prefixOnly_of (prompt_local d a hu)
+
+/-- Keep Alive PDU -/
+theorem C09_keep_alive (d : Bytes) (a : KeepAlive.KeepAlive) (hu : KeepAlive.KeepAlive.unpack d = .ok a) :
+    PrefixOnly KeepAlive.KeepAlive.unpack d a a.packetLen :=
+  prefixOnly_of (keepAlive_local d a hu)
+
+/-- File Data PDU: offset, file data and segment metadata come from the declared PDU only -/
+theorem C09_file_data (d : Bytes) (x : FileData.Pdu) (hu : FileData.Pdu.unpack d = .ok x) :
+    PrefixOnly FileData.Pdu.unpack d x x.packetLen :=
+  prefixOnly_of (fileData_local d x hu)
+
+/-- NAK PDU: an accepted buffer is *exactly* the declared PDU -/
+theorem C09_nak (d : Bytes) (k : Nak.Nak) (hu : Nak.Nak.unpack d = .ok k) :
+    d.length = k.packetLen ∧ Nak.Nak.unpack (d.take k.packetLen) = .ok k :=
+  ⟨nak_exact hu, (nak_restricts d k hu).2⟩
+
+/-- … and followed by at least one octet it is refused with the documented `ValueError`: trailing
+    octets are never folded into segment requests (for every accepted NAK PDU, not only packed ones) -/
+theorem C09_nak_trailing (d : Bytes) (k : Nak.Nak) (hu : Nak.Nak.unpack d = .ok k) (s : Bytes) (hs : s ≠ []) :
+    Nak.Nak.unpack (d ++ s) = .error .value ∧ Err.value.documented = true :=
+  ⟨nak_trailing_refused hu s hs, rfl⟩
+
+/-- **every PDU kind**: the declared PDU lies inside every accepted buffer and decoding exactly the
+    declared PDU gives the same result -/
+theorem C09_pdu_declared (k : PduKind) (d : Bytes) (r : PduDecoded) (hu : k.decode d = .ok r) :
+    r.len ≤ d.length ∧ k.decode (d.take r.len) = .ok r :=
+  PduKind.restricts k d r hu
+
+/-- **every PDU kind**: the declared PDU followed by any octets is decoded exactly as the PDU alone
+    or refused with a documented error -/
+theorem C09_pdu_trailing (k : PduKind) (d : Bytes) (r : PduDecoded) (hu : k.decode d = .ok r) (s : Bytes) :
+    k.decode (d.take r.len ++ s) = .ok r ∨
+      ∃ e, k.decode (d.take r.len ++ s) = .error e ∧ e.documented = true := by
+  cases hk : k.acceptsTrailing with
+  | true => exact Or.inl ((PduKind.local k hk d r hu).take_append s)
+  | false =>
+    cases k <;> try cases hk
+    by_cases hs : s = []
+    · subst hs; rw [List.append_nil]; exact Or.inl (PduKind.restricts .nak d r hu).2
+    · right
+      have h' : PduDecoded.nak <$> Nak.Nak.unpack d = .ok r := hu
+      cases hn : Nak.Nak.unpack d with
+      | error e => rw [hn] at h'; cases h'
+      | ok x =>
+        rw [hn] at h'
+        have hr : r = .nak x := (Except.ok.inj h').symm
+        subst hr
+        have hl : (PduDecoded.nak x).len = x.packetLen := rfl
+        have ht : d.take x.packetLen = d := List.take_of_length_le (by rw [nak_exact hn]; exact Nat.le_refl _)
+        refine ⟨.value, ?_, rfl⟩
+        show PduDecoded.nak <$> Nak.Nak.unpack (d.take (PduDecoded.nak x).len ++ s) = _
+        rw [hl, ht, nak_trailing_refused hn s hs]; rfl
+
+/-- the kinds that accept a longer buffer (all but NAK) decode it exactly as the PDU alone -/
+theorem C09_pdu_suffix (k : PduKind) (hk : k.acceptsTrailing = true) (d : Bytes) (r : PduDecoded)
+    (hu : k.decode d = .ok r) (s : Bytes) : k.decode (d ++ s) = k.decode d := by
+  rw [hu]; exact (PduKind.local k hk d r hu).append s
+
+/-- … so a buffer of such PDUs back to back is split into exactly those PDUs by the reported
+    `packet_len`s (no bound on their number) -/
+theorem C09_split_pdu (k : PduKind) (hk : k.acceptsTrailing = true) (units : List (Bytes × PduDecoded))
+    (hp : ∀ u ∈ units, k.decode u.1 = .ok u.2 ∧ u.2.len = u.1.length) (tail : Bytes) :
+    splitN k.codec units.length ((units.map (·.1)).flatten ++ tail) = .ok (units.map (·.2), tail) :=
+  splitN_concat k.codec (PduKind.local k hk).extends units hp tail
+
+private theorem paramsEnd_eq (fd : FileDirective.FileDirective) :
+    fd.paramsEnd = fd.packetLen - (if fd.header.conf.crcFlag = 1 then 2 else 0) := by
+  unfold FileDirective.FileDirective.paramsEnd; split <;> simp
+
+/-- **no fold, ACK**: the decoded PDU is the value of the parameter parser (which never sees the
+    buffer) on the directive base and the first `packet_len − crc` octets -/
+theorem C09_ack_no_fold (d : Bytes) (a : Ack.Ack) (hu : Ack.Ack.unpack d = .ok a) :
+    a.fd.paramsEnd = a.packetLen - (if a.fd.header.conf.crcFlag = 1 then 2 else 0) ∧
+    Ack.parse (a.fd, d.take a.fd.paramsEnd) = .ok a :=
+  ⟨paramsEnd_eq a.fd, (Ack.unpack_inv d a hu).2.2.1⟩
+
+theorem C09_prompt_no_fold (d : Bytes) (a : Prompt.Prompt) (hu : Prompt.Prompt.unpack d = .ok a) :
+    a.fd.paramsEnd = a.packetLen - (if a.fd.header.conf.crcFlag = 1 then 2 else 0) ∧
+    Prompt.parse (a.fd, d.take a.fd.paramsEnd) = .ok a :=
+  ⟨paramsEnd_eq a.fd, (Prompt.unpack_inv d a hu).2.2.1⟩
+
+theorem C09_keep_alive_no_fold (d : Bytes) (a : KeepAlive.KeepAlive) (hu : KeepAlive.KeepAlive.unpack d = .ok a) :
+    a.fd.paramsEnd = a.packetLen - (if a.fd.header.conf.crcFlag = 1 then 2 else 0) ∧
+    KeepAlive.parse (a.fd, d.take a.fd.paramsEnd) = .ok a :=
+  ⟨paramsEnd_eq a.fd, (KeepAlive.unpack_inv d a hu).2.2.1⟩
+
+/-- **no fold, NAK**: scope and every segment request come from the declared PDU minus its CRC
+    trailer (the parser's first argument only serves the longer-than-declared refusal) -/
+theorem C09_nak_no_fold (d : Bytes) (k : Nak.Nak) (hu : Nak.Nak.unpack d = .ok k) :
+    k.fd.paramsEnd = k.packetLen - (if k.fd.header.conf.crcFlag = 1 then 2 else 0) ∧
+    Nak.parse k.packetLen (k.fd, d.take k.fd.paramsEnd) = .ok k := by
+  obtain ⟨_, hf, hl, _⟩ := Nak.unpack_inv d k hu
+  rw [hl] at hf
+  exact ⟨paramsEnd_eq k.fd, hf⟩
+
+/-- **no fold, File Data**: header, metadata, offset and file data, laid out, ARE the first
+    `packet_len − crc` octets of the buffer — not one octet of the trailer or of what follows -/
+theorem C09_file_data_no_fold (d : Bytes) (x : FileData.Pdu) (hu : FileData.Pdu.unpack d = .ok x) :
+    C07.Spec.body x = d.take (x.packetLen - FileData.crcLen x.header) :=
+  C07.C07_no_fold d x hu
+
+-- non-vacuity of the PDU half (octets produced by the model's own `pack`): an ACK of an EOF PDU
+-- without CRC (10 octets) and an ACK of a Finished PDU with CRC (12 octets) are accepted and report
+-- exactly their own length; followed by two more octets they decode to the same PDU
+example : (Ack.Ack.unpack [0x28, 0x00, 0x03, 0x00, 0x01, 0x02, 0x03, 0x06, 0x40, 0x21]).toOption.map
+    (fun a => (a.packetLen, a.ackedCode, a.cond, a.status)) = some (10, 4, 2, 1) := by decide
+example : (Ack.Ack.unpack [0x22, 0x00, 0x05, 0x00, 0x01, 0x02, 0x03, 0x06, 0x51, 0x02, 0x7B, 0x93]).toOption.map
+    (fun a => (a.packetLen, a.fd.paramsEnd, a.ackedCode, a.status)) = some (12, 10, 5, 2) := by decide +kernel
+example : Ack.Ack.unpack ([0x28, 0x00, 0x03, 0x00, 0x01, 0x02, 0x03, 0x06, 0x40, 0x21] ++ [0xAA, 0xBB]) =
+    Ack.Ack.unpack [0x28, 0x00, 0x03, 0x00, 0x01, 0x02, 0x03, 0x06, 0x40, 0x21] := by decide
 
 end SpVerif.Props.C09
